@@ -52,3 +52,31 @@ Theorem c05_scheduler_index_safe : forall s0 P g t cur,
   reachable s0 P g -> (0 <= t < tlen (thr g))%Z -> thr_get (thr g) t = (M_READY, cur) -> sched_guard (gs g) cur = true.
 Proof. exact sched_guard_reachable. Qed.
 Print Assumptions c05_scheduler_index_safe.
+
+From SLU Require Import SymFill GeorgeNg RowMergeExec.
+
+(* the predicted bound dominates L for WHATEVER pivots are chosen (George & Ng 1985, on patterns of any size):
+   pelim piv n P = the pattern of L+U after partial pivoting with the row choices piv (any admissible sequence);
+   rowmerge n n P = the row-merge (Householder) pattern, whose column counts are what qrnzcnt predicts (tied per run);
+   elim n (ata n P) = the symbolic Cholesky factor of A^T A.  With a zero-free diagonal every column of L has at most as many
+   entries as the row-merge pattern, which in turn is inside the Cholesky bound *)
+Theorem c05_colcount_dominated : forall n (P : pat) (piv : nat -> nat),
+  zero_free_diag n P -> admissible n piv P ->
+  forall j, (j < n)%nat ->
+  (lcount n (pelim piv n P) j <= lcount n (rowmerge n n P) j)%nat /\
+  (lcount n (rowmerge n n P) j <= lcount n (elim n (ata n P)) j)%nat.
+Proof. exact george_ng_colcount. Qed.
+Print Assumptions c05_colcount_dominated.
+
+(* the U part needs no hypothesis on the diagonal: every entry of U lies in the Cholesky factor of A^T A *)
+Theorem c05_U_within_cholesky_of_ata : forall n (P : pat) (piv : nat -> nat),
+  admissible n piv P ->
+  forall i j, (i < n)%nat -> (i <= j)%nat -> pelim piv n P i j = true -> elim n (ata n P) i j = true.
+Proof. exact george_ng_U. Qed.
+Print Assumptions c05_U_within_cholesky_of_ata.
+
+(* the executable column counts used in the correspondence are those of the row-merge pattern *)
+Theorem c05_rowmerge_counts_executable : forall n ents j, (j < n)%nat ->
+  nth j (rm_colcounts n ents) 0%nat = lcount n (rowmerge n n (tab n (pat_of ents))) j.
+Proof. exact rm_colcounts_spec. Qed.
+Print Assumptions c05_rowmerge_counts_executable.
